@@ -13,7 +13,7 @@ let cls_of_int = function
   | 13 -> CkPathCoverCycles | 14 -> CMinPathCoverCycles | 15 -> CMinErrorFlow | _ -> failwith "class id"
 let kind_of_int = function 0 -> IStr | 1 -> IPair | 2 -> ITriple | 3 -> IInt | _ -> failwith "item kind"
 let next_item () = let kd = kind_of_int (next ()) in let g = next_bool () in { it_kind = kd; it_in_graph = g }
-let s_exn = function EType -> "TypeError" | EOverflow -> "OverflowError" | ESolverAPI -> "Exception"
+let s_exn = function EOverflow -> "OverflowError" | ESolverAPI -> "Exception"
 let () = register "validate" (fun () ->
   let c = cls_of_int (next ()) in
   let nodes_str = next_list next_bool in
